@@ -440,6 +440,116 @@ Theorem C20_roundtrip_error_registered :
 Proof. exact roundtrip_error_registered. Qed.
 Print Assumptions C20_roundtrip_error_registered.
 
+(* the keyring as a mutable object: after any history of set_key calls interleaved with uses (lookups, encode, decode —
+   every message a session sends or receives), the ring is the one made by the set_key calls alone *)
+Theorem C20_history_uses_do_not_change_ring :
+  forall (X : Type) (steps : list (kstep X)) (r : keyring),
+  fst (run_history r steps) = apply_sets r (sets_of steps).
+Proof. exact (@run_history_ring). Qed.
+Print Assumptions C20_history_uses_do_not_change_ring.
+
+(* ... and every use sees exactly the ring made by the set_key calls BEFORE it: no dependence on what was looked up,
+   encoded or decoded earlier (a memoised lookup would break this) *)
+Theorem C20_history_use_sees_current_ring :
+  forall (X : Type) (pre : list (kstep X)) (f : keyring -> X) (post : list (kstep X)) (r : keyring),
+  exists xs ys : list X,
+    snd (run_history r (pre ++ KUse f :: post)) = (xs ++ f (apply_sets r (sets_of pre)) :: ys)%list /\
+    Datatypes.length xs = uses_in pre.
+Proof. exact (@run_history_use). Qed.
+Print Assumptions C20_history_use_sees_current_ring.
+
+(* after any history the entry of a prefix is the key of its LAST set_key (removed / never set: none) *)
+Theorem C20_history_trie_is_last_set :
+  forall (sets : list (string * option key)) (p : string),
+  p <> "" -> aget String.eqb p (kr_trie (apply_sets empty_ring sets)) = binding sets p.
+Proof. exact (@trie_binding). Qed.
+Print Assumptions C20_history_trie_is_last_set.
+
+(* ... and the default key is the last set_key("", k) *)
+Theorem C20_history_default_is_last_set :
+  forall sets : list (string * option key), kr_default (apply_sets empty_ring sets) = binding sets "".
+Proof. exact (@default_binding). Qed.
+Print Assumptions C20_history_default_is_last_set.
+
+(* lookup after ANY history = longest-prefix lookup over the CURRENT bindings (add, replace, remove, shadowing prefixes) *)
+Theorem C20_lookup_after_history :
+  forall (sets : list (string * option key)) (uri p : string) (k : key),
+  p <> "" ->
+  binding sets p = Some k ->
+  prefix p uri = true ->
+  (forall p' : string,
+   p' <> "" -> p' <> p -> binding sets p' <> None -> prefix p' uri = true -> length p' < length p) ->
+  lookup_key (apply_sets empty_ring sets) uri = Some k.
+Proof. exact (@lookup_history). Qed.
+Print Assumptions C20_lookup_after_history.
+
+(* ... falling back to the current default key when no current prefix matches *)
+Theorem C20_lookup_after_history_default :
+  forall (sets : list (string * option key)) (uri : string),
+  (forall p : string, p <> "" -> binding sets p <> None -> prefix p uri = false) ->
+  lookup_key (apply_sets empty_ring sets) uri = binding sets "".
+Proof. exact (@lookup_history_default). Qed.
+Print Assumptions C20_lookup_after_history_default.
+
+(* lifted to histories: once a key applies to the URI, PUBLISH / CALL carry ciphertext only — whatever was sent for the
+   same URI while no key (or another key) applied *)
+Theorem C20_no_clear_on_wire_after_history :
+  forall (V P C nonce : Type) (seal : secret -> nonce -> P -> C) (dumps : envelope V -> option P)
+    (sets : list (string * option key)) (uri : string) (k : key) (s : secret) (a : list V) 
+    (kw0 : kw V) (n : nonce) (b : body V C),
+  current_key sets uri k ->
+  originator_box k = Some s ->
+  originate V P C nonce seal dumps (Some (apply_sets empty_ring sets)) uri a kw0 n = Sent b ->
+  exists p : P,
+    dumps (Some uri, Some a, Some kw0) = Some p /\
+    b = Encoded {| e_payload := seal s n p; e_algo := "cryptobox"; e_serializer := Some "json"; e_key := None |}.
+Proof. exact (@no_clear_after_history). Qed.
+Print Assumptions C20_no_clear_on_wire_after_history.
+
+(* lifted: exact recovery by all handlers between two rings with arbitrary histories whose CURRENT keys pair up *)
+Theorem C20_roundtrip_after_histories :
+  forall (V P C nonce : Type) (seal : secret -> nonce -> P -> C) (open : secret -> C -> option P)
+    (dumps : envelope V -> option P) (loads : P -> option (envelope V)),
+  aead_ok seal open ->
+  json_ok dumps loads ->
+  forall (setsA setsB : list (string * option key)) (topic : string) (kA kB : key) (s : secret) 
+    (a : list V) (kw0 : kw V) (n : nonce) (b : body V C) (msg_topic : option string) 
+    (hs : list ehandler),
+  current_key setsA topic kA ->
+  originator_box kA = Some s ->
+  current_key setsB topic kB ->
+  responder_box kB = Some s ->
+  originate V P C nonce seal dumps (Some (apply_sets empty_ring setsA)) topic a kw0 n = Sent b ->
+  on_topic msg_topic topic hs ->
+  dispatch_event V P C open loads (Some (apply_sets empty_ring setsB)) msg_topic b hs =
+  map (fun h : ehandler => (h_id h, a, kw0)) (filter h_active hs).
+Proof. exact (@roundtrip_after_histories). Qed.
+Print Assumptions C20_roundtrip_after_histories.
+
+(* lifted: a ciphertext sealed under a key that has since been replaced or removed (any secret other than the current
+   key's) is rejected in every direction by the CURRENT ring *)
+Theorem C20_wrong_key_after_history :
+  forall (V P C nonce : Type) (seal : secret -> nonce -> P -> C) (open : secret -> C -> option P)
+    (dumps : envelope V -> option P) (loads : P -> option (envelope V)),
+  aead_ok seal open ->
+  forall (note : recv V -> V) (sets : list (string * option key)) (uri : string) (k : key) 
+    (s : secret) (n : nonce) (p : P) (n' : nonce) (msg_topic : option string) (hs : list ehandler),
+  current_key sets uri k ->
+  (forall s' : secret, originator_box k = Some s' \/ responder_box k = Some s' -> s <> s') ->
+  on_topic msg_topic uri hs ->
+  let r := apply_sets empty_ring sets in
+  let e := {| e_payload := seal s n p; e_algo := "cryptobox"; e_serializer := Some "json"; e_key := None |} in
+  dispatch_event V P C open loads (Some r) msg_topic (Encoded e) hs = [] /\
+  (exists x : cbexc,
+     on_invocation V P C nonce seal open dumps loads note (Some r) uri (Encoded e) n' =
+     ErrorReply ENC_DECRYPT_ERROR
+       (error_body V P C nonce seal dumps (Some r) ENC_DECRYPT_ERROR (Some [note (RDecryptError x)]) 
+          (Some []) n')) /\
+  on_result V P C open loads (Some r) uri false (Encoded e) = RejectedWith ENC_DECRYPT_ERROR /\
+  on_error_codec V P C open loads (Some r) uri (Encoded e) = ErrEnc ENC_DECRYPT_ERROR.
+Proof. exact (@stale_key_rejected). Qed.
+Print Assumptions C20_wrong_key_after_history.
+
 (* ---------------------------------------------------------------- non-vacuity: a toy authenticated cipher *)
 (* ciphertext = the sealing secret, the nonce and the plaintext in the open, or garbage; it satisfies the assumed
    laws, so the theorems above are not vacuous; the same instance runs in the correspondence (Model/CryptoboxRun.v) *)
@@ -510,3 +620,20 @@ Example C20_witness_event_handlers :
   disp (sealed "com.myapp.other") hs = [] /\
   disp (Encoded (mkEnc Garbage "cryptobox" (Some "json") None)) hs = [].
 Proof. vm_compute. repeat split; reflexivity. Qed.
+
+(* a history: publish while no key applies (clear), install a key, publish the SAME topic again (must be ciphertext),
+   replace the key (new secret), remove it (clear again); and a subscriber that replaced its key rejects the old one *)
+Example C20_witness_history :
+  let pubt := fun r => originate N (envelope N) toyC N toy_seal (fun e => Some e) (Some r) "com.myapp.topic" [1] [] 7 in
+  let k22 := mkKey (Some 22) (Some 22) in let k33 := mkKey (Some 33) (Some 33) in
+  snd (run_history empty_ring [KUse pubt; KSet "com.myapp." (Some k22); KUse pubt; KSet "com.myapp." (Some k33); KUse pubt;
+                               KSet "com.myapp." None; KUse pubt])
+  = [Sent (Plain (Some [1]) (Some []));
+     Sent (Encoded (mkEnc (Sealed 22 7 (Some "com.myapp.topic", Some [1], Some [])) "cryptobox" (Some "json") None));
+     Sent (Encoded (mkEnc (Sealed 33 7 (Some "com.myapp.topic", Some [1], Some [])) "cryptobox" (Some "json") None));
+     Sent (Plain (Some [1]) (Some []))] /\
+  dispatch_event N (envelope N) toyC toy_open (fun p => Some p)
+      (Some (apply_sets empty_ring [("com.myapp.", Some k22); ("com.myapp.", Some k33)])) None
+      (Encoded (mkEnc (Sealed 22 7 (Some "com.myapp.topic", Some [1], Some [])) "cryptobox" (Some "json") None))
+      [mkHandler 1 true "com.myapp.topic"] = [].
+Proof. vm_compute. split; reflexivity. Qed.
